@@ -51,7 +51,7 @@ theorem kw_ids_faithful (a b : Nat) (ha : a < GrammarNames.attrName.length) (hb 
     kwOf T a = kwOf T b ↔ kwString a = kwString b := by
   have ra := kwRows_get _ _ kw_table_ok a ha
   have rb := kwRows_get _ _ kw_table_ok b hb
-  simp only [kwRow, Bool.and_eq_true, beq_iff_eq, Nat.beq_eq_true_eq] at ra rb
+  simp only [kwRow, Bool.and_eq_true, beq_iff_eq] at ra rb
   show GrammarTables.attrKw[a]?.getD 0 = GrammarTables.attrKw[b]?.getD 0 ↔
     kwStringOf (GrammarNames.attrName[a]?.getD 0) = kwStringOf (GrammarNames.attrName[b]?.getD 0)
   constructor
@@ -59,6 +59,6 @@ theorem kw_ids_faithful (a b : Nat) (ha : a < GrammarNames.attrName.length) (hb 
   · intro h
     have : bytes (GrammarTables.attrKw[a]?.getD 0) = bytes (GrammarTables.attrKw[b]?.getD 0) := by
       rw [ra.1.2, rb.1.2, h]
-    rw [← ra.2, ← rb.2, this]
+    rw [← Nat.eq_of_beq_eq_true ra.2, ← Nat.eq_of_beq_eq_true rb.2, this]
 
 end OdfModel.Props.C06
